@@ -242,28 +242,35 @@ func checkRequest(req []byte, extra map[string]string, prevKeys map[string]bool)
 	return ""
 }
 
-func readClientFrame(c net.Conn) (rfc6455.Frame, error) {
+// readClientFrames reads the next n frames the client put on the wire.
+func readClientFrames(c net.Conn, n int) ([]rfc6455.Frame, error) {
 	_ = c.SetReadDeadline(time.Now().Add(3 * time.Second))
 	var buf []byte
+	var out []rfc6455.Frame
 	tmp := make([]byte, 4096)
 	for {
-		if f, _, st := rfc6455.Parse(buf); st == rfc6455.OK {
-			return f, nil
-		}
-		n, err := c.Read(tmp)
-		buf = append(buf, tmp[:n]...)
-		if err != nil {
-			if f, _, st := rfc6455.Parse(buf); st == rfc6455.OK {
-				return f, nil
+		for len(out) < n {
+			f, used, st := rfc6455.Parse(buf)
+			if st != rfc6455.OK {
+				break
 			}
-			return rfc6455.Frame{}, err
+			out = append(out, f)
+			buf = buf[used:]
+		}
+		if len(out) >= n {
+			return out, nil
+		}
+		k, err := c.Read(tmp)
+		buf = append(buf, tmp[:k]...)
+		if err != nil && k == 0 {
+			return out, err
 		}
 	}
 }
 
 func TestC18_Handshake(t *testing.T) {
 	rec := evid.For("C18")
-	rec.SetRule("rapid: 1..3 handshakes on one Stream against a raw TCP server in the harness; response = status {101 (two reason phrases), 200, 400, 426} x Upgrade {websocket in 3 spellings, missing, h2c, near misses: websockets, websocket2, xwebsocket, websocke, WebSocket-Draft76} x Sec-WebSocket-Accept {right, wrong, missing} x header-name case x separator after the colon {' ', '', two spaces, tab, trailing space} x header order permutation x extra headers x piggy-backed frames {none, 1..3 complete messages, last one cut after 1..6 bytes} x segmentation (1..3 cuts, 3 ms apart) x server close at byte j; blocking and asynchronous handshake; between handshakes the previous session may leave a queued Close(1002); oracle: request well-formed with a fresh 16-byte key and the caller's headers; success iff (101 and Upgrade: websocket and correct accept and response fully sent); failure => error, State()==Terminated and the server sees the client's end of the connection (not half-open); after success the messages read are exactly the piggy-backed ones followed by the later ones, and the first frame the server receives is the one the new session wrote; non-trivial = conforming response that is segmented or varied in case/whitespace with >=1 piggy-backed frame, or a second handshake on the same stream; distinct = hash of the plans")
+	rec.SetRule("rapid: 1..3 handshakes on one Stream against a raw TCP server in the harness; response = status {101 (two reason phrases), 200, 400, 426} x Upgrade {websocket in 3 spellings, missing, h2c, near misses: websockets, websocket2, xwebsocket, websocke, WebSocket-Draft76} x Sec-WebSocket-Accept {right, wrong, missing} x header-name case x separator after the colon {' ', '', two spaces, tab, trailing space} x header order permutation x extra headers x piggy-backed frames {none, 1..3 complete messages, last one cut after 1..6 bytes} x segmentation (1..3 cuts, 3 ms apart) x server close at byte j; blocking and asynchronous handshake; between handshakes the previous session may leave a queued Close(1002); oracle: request well-formed with a fresh 16-byte key and the caller's headers; success iff (101 and Upgrade: websocket and correct accept and response fully sent); failure => error, State()==Terminated and the server sees the client's end of the connection (not half-open); after success the messages read are exactly the piggy-backed ones followed by the later ones, and the first two frames the server receives are exactly the two the new session wrote; non-trivial = conforming response that is segmented or varied in case/whitespace with >=1 piggy-backed frame, or a second handshake on the same stream; distinct = hash of the plans")
 	segKnown := known.Listed("C18", "response-single-read")
 	vt.Check(t, 400, func(rt *rapid.T) {
 		ln, err := net.Listen("tcp", "127.0.0.1:0")
@@ -391,14 +398,20 @@ func TestC18_Handshake(t *testing.T) {
 			}
 			// the client writes first: the server must see exactly this frame first (a re-handshaken stream is fresh)
 			hello := []byte(fmt.Sprintf("hello-%d", round))
+			fence := []byte(fmt.Sprintf("fence-%d", round))
 			if err := s.Write(hello, websocket.TypeText); err != nil {
 				closeServer()
 				rt.Fatalf("handshake #%d: first Write failed: %v", round, err)
 			}
-			f, err := readClientFrame(sr.conn)
-			if err != nil || f.Opcode != rfc6455.OpText || !bytes.Equal(f.Payload, hello) || !f.Masked {
+			if err := s.Write(fence, websocket.TypeBinary); err != nil {
 				closeServer()
-				rt.Fatalf("handshake #%d: the first frame the server received is %v (err %v), the session wrote text %q first: leftovers of an earlier session on the wire", round, f, err, hello)
+				rt.Fatalf("handshake #%d: second Write failed: %v", round, err)
+			}
+			fs, err := readClientFrames(sr.conn, 2)
+			if err != nil || len(fs) != 2 || fs[0].Opcode != rfc6455.OpText || !bytes.Equal(fs[0].Payload, hello) || !fs[0].Masked ||
+				fs[1].Opcode != rfc6455.OpBinary || !bytes.Equal(fs[1].Payload, fence) || !fs[1].Masked {
+				closeServer()
+				rt.Fatalf("handshake #%d: the first frames the server received are %v (err %v), the session wrote text %q and then binary %q and nothing else: leftovers of an earlier session on the wire", round, fs, err, hello, fence)
 			}
 			// later frames
 			for _, m := range p.Later {
